@@ -270,6 +270,13 @@ impl Property for C01 {
                 }
                 let code = resp["out"]["ret_code"].as_i64().unwrap_or(-1);
                 rep.classes.push(stage(code).to_string());
+                // triage aid: VERIF_FIND=<text> turns an outcome whose message contains <text> into a
+                // (shrunk, saved) case, e.g. to produce the regression file of a repaired defect
+                if let Ok(pat) = std::env::var("VERIF_FIND") {
+                    if resp["out"]["msg"].as_str().map(|m| m.contains(&pat)).unwrap_or(false) {
+                        return CaseResult::Violation(mk_viol("found".into(), format!("message contains {}", pat), &input, &trep.labels), rep);
+                    }
+                }
                 if trep.consistent {
                     rep.classes.push("consistent_after_repair".into());
                 }
